@@ -45,7 +45,7 @@ ops (one line, words separated by blanks; bytes as hex, "-" = empty):
              n = nil token, e = <hex> ++ latest challenge, c = <hex> ++ all challenges so far, m = the latest challenge
              itself (nil stays nil), x = error; next = a challenger is returned; rounds beyond the list: error
   PLAN    := <n> (use <ks> | reg <topo> <status> <schema> | exec <stmt> <cons> <n> OPTB*)*
-  ANSWERS := <n> (sup <n> (<key> <n> <val>*)* | ready | authn <class> | chal OPTB | succ OPTB | err | setks | void | prep <id> <ncols>)*
+  ANSWERS := <n> (sup <n> (<key> <n> <val>*)* | ready | authn <class> | chal OPTB | succ OPTB | err | setks | void | prep <id> <ncols> | unprep <id>)*
   FRAMES  := <n> <hex>*        ORDER := <n> <key>*  (iteration order of the STARTUP map)      STREAMS := <n> <int>*
 -/
 
@@ -322,6 +322,9 @@ def pAnswer : P PeerAnswer
     let (id, r) ← pHex r
     let (n, r) ← pNat r
     pure (PeerAnswer.prepared id n, r)
+  | "unprep" :: r => do
+    let (id, r) ← pHex r
+    pure (PeerAnswer.unprepared id, r)
   | _ => none
 
 structure HsLine where
